@@ -128,6 +128,22 @@ func TestC14(t *testing.T) {
 		w.Add(term, d, fmt.Sprint(d), true)
 		w.Count("side", "parallel-path")
 	}
+	// failing datastore writes inside DeleteRange (finding F29): corpus witnesses, every single-failure placement on
+	// both sides and the whole store with both datastore flavours, random placements at the end of random histories;
+	// each followed by the retry, a continuation and a reopen (Oracle/StoreFault.v)
+	nf := 25
+	if emit.Thorough() {
+		nf *= 10
+	}
+	storeh.FaultCases(t, rng, []int{4}, []int{1, 2}, nf, func(res storeh.Result, class string) {
+		if res.FaultTerm == "" { // no operation with failing writes was reached
+			w.Add("CSeq ("+res.Term+")", res.Descr, class+fmt.Sprint(res.Descr["ops"]), false)
+			return
+		}
+		w.Add("CFault ("+res.FaultTerm+")", res.Descr, class+fmt.Sprint(res.Descr["ops"]), res.WFailed > 0)
+		w.Count("failing_writes_in_delete", fmt.Sprint(res.WFailed))
+		w.Count("write_attempts_in_faulty_delete", fmt.Sprint(res.WAttempts))
+	})
 	if err := w.Flush(); err != nil {
 		t.Fatal(err)
 	}
